@@ -2,6 +2,7 @@ package main
 
 import (
 	"fmt"
+	"math/big"
 	"go/types"
 	"strings"
 
@@ -63,10 +64,10 @@ func (in *Interp) flatten(v Value) []*Term {
 func (in *Interp) flattenBytes(node *ArrNode, off, n *Term) []*Term {
 	r := []*Term{n}
 	for i := 0; i < obsSlots; i++ {
-		k := BV(64, int64(i))
+		k := IX(int64(i))
 		b := node.Read(Bin("bvadd", off, k))
 		if b.w != 8 {
-			b = Extract(ZExt(b, 64), 7, 0)
+			in.unsupported("vfObserve of non-byte slice")
 		}
 		r = append(r, Ite(Cmp("bvslt", k, n), b, BV(8, 0)))
 	}
@@ -80,20 +81,15 @@ func (in *Interp) vf(fn *ssa.Function, args []Value) Value {
 	switch fn.Name() {
 	case "vfInt":
 		lo, hi := args[1].(*Term), args[2].(*Term)
-		if lo.IsConst() && hi.IsConst() && lo.Int() >= 0 && hi.Int() >= lo.Int() {
-			// non-negative bounded value: a narrow variable zero-extended to 64 bits
-			// (same values, but the solver sees the constant high bits)
-			w := 1
-			for int64(1)<<uint(w) <= hi.Int() {
-				w++
-			}
-			v := ZExt(in.newInput(str(0), w, "int"), 64)
-			in.assumeFeasible(And(Cmp("bvule", lo, v), Cmp("bvule", v, hi)))
-			return v
+		n := in.inputName(str(0))
+		var v *Term
+		if lo.IsConst() && hi.IsConst() {
+			v = IntVarR(n, lo.c, hi.c)
+		} else {
+			v = IntVar(n)
 		}
-		v := in.newInput(str(0), 64, "int")
-		c := And(Cmp("bvsle", lo, v), Cmp("bvsle", v, hi))
-		in.assumeFeasible(c)
+		in.inputs = append(in.inputs, &Input{Name: n, T: v, Kind: "int"})
+		in.assumeFeasible(And(ICmp("<=", lo, v), ICmp("<=", v, hi)))
 		return v
 	case "vfPick":
 		// small enumeration: fork over the concrete values, return a constant
@@ -102,12 +98,14 @@ func (in *Interp) vf(fn *ssa.Function, args []Value) Value {
 		if !ok1 || !ok2 || hi < lo || hi-lo > 64 {
 			in.unsupported("vfPick needs a small constant range")
 		}
-		v := in.newInput(str(0), 64, "int")
+		n := in.inputName(str(0))
+		v := IntVarR(n, big.NewInt(int64(lo)), big.NewInt(int64(hi)))
+		in.inputs = append(in.inputs, &Input{Name: n, T: v, Kind: "int"})
 		conds := make([]*Term, hi-lo+1)
 		for i := range conds {
-			conds[i] = Eq(v, BV(64, int64(lo+i)))
+			conds[i] = Eq(v, IX(int64(lo+i)))
 		}
-		return BV(64, int64(lo+in.choose(conds)))
+		return IX(int64(lo + in.choose(conds)))
 	case "vfU8":
 		return in.newInput(str(0), 8, "int")
 	case "vfU16":
@@ -132,9 +130,9 @@ func (in *Interp) vf(fn *ssa.Function, args []Value) Value {
 		arr := in.baseArr(name, 8)
 		in.inputs = append(in.inputs, &Input{Name: name, Arr: arr, Len: n, Kind: "bytes"})
 		if fn.Name() == "vfString" {
-			return &StrV{node: arr, off: BV(64, 0), len: n}
+			return &StrV{node: arr, off: IX(0), len: n}
 		}
-		return &SliceV{obj: &ArrObj{node: arr, ew: 8}, off: BV(64, 0), len: n, cap: n}
+		return &SliceV{obj: &ArrObj{node: arr, ew: 8}, off: IX(0), len: n, cap: n}
 	case "vfAssume":
 		in.assumeFeasible(args[0].(*Term))
 		return nil
@@ -182,13 +180,13 @@ func (in *Interp) vf(fn *ssa.Function, args []Value) Value {
 		in.settle()
 		return nil
 	case "vfAllocBytes":
-		s := BV(64, 0)
+		s := IX(0)
 		for _, a := range in.allocs {
-			s = Bin("bvadd", s, a)
+			s = IArith("+", s, a)
 		}
 		return s
 	case "vfRepeat":
-		return BV(64, 1)
+		return IX(1)
 	case "vfIsErrorf":
 		// reports whether err was built by fmt.Errorf with the given constant format
 		iv, _ := args[0].(*IfaceV)
